@@ -249,3 +249,30 @@ func denseThenTail(r *Rng) [][]byte {
 	_ = r
 	return out
 }
+
+// earlyErrorDocs: the only defect is a raw control character inside a string
+// that lies in the FIRST (or a middle) index buffer of a message needing
+// several; everything after it is valid.  (Stage 2 does not look at string
+// bytes below 0x20: stage 1's accumulated error flag is what rejects these.)
+func earlyErrorDocs() (single [][]byte, nd [][]byte) {
+	for _, ctl := range []byte{0x01, 0x1f, '\n', '\t', 0x00} {
+		for _, n := range []int{800, 1500, 3000, 6000} {
+			bad := `"a` + string([]byte{ctl}) + `b"`
+			single = append(single, []byte("["+bad+strings.Repeat(",1", n)+"]"))
+			single = append(single, []byte("["+strings.Repeat("1,", n)+bad+strings.Repeat(",1", n)+"]"))
+			single = append(single, []byte(`{"k":`+bad+`,"v":[`+strings.Repeat("[],", n)+`0]}`))
+			var b strings.Builder
+			b.WriteString(`{"a":"x` + string([]byte{ctl}) + `y"}` + "\n")
+			for i := 0; i < n/2; i++ {
+				b.WriteString(`{"k":1}` + "\n")
+			}
+			nd = append(nd, []byte(b.String()))
+			var m strings.Builder
+			for i := 0; i < n/2; i++ {
+				m.WriteString(`{"k":1}` + "\n")
+			}
+			nd = append(nd, []byte(m.String()+`{"a":"x`+string([]byte{ctl})+`y"}`+"\n"+m.String()))
+		}
+	}
+	return
+}
